@@ -10,12 +10,16 @@
     map <src> <begin> <end>                   Token.SourceMap.make                                           → ok bl,bc,el,ec
     filter <tok;tok;…>                        Lexer.post_filter on an arbitrary token list
     rebuild <tok;tok;…>                       Tokenizer._rebuild on an arbitrary token list
+    lay.blank <src> <pos> <w>                 the checker of C13.layout_blank_by_position (blankInsertOK)               → true|false
+    lay.comment <src> <pos> <w> <body>        commentInsertOK with the definition's first comment pair                → true|false
+    lay.cline <src> <pos> <ind> <body>        commentLineInsertOK                                                      → true|false
 
   tok = <type value>:<hex string>:<bl>,<bc>,<el>,<ec>
 -/
 import Tranp.Driver.Common
 import Tranp.Model.Lexer
 import Tranp.Generated.TokenDef
+import Tranp.Lemmas.Lexer
 
 namespace Tranp.Driver.Lex
 open Tranp Tranp.Lexer Tranp.Driver
@@ -89,6 +93,18 @@ def step (st : St) : List String → St × String
       else if op = "p.symbol" then (st, showStep (parseSymbol st.d s b))
       else (st, "bad-op")
     | _, _ => (st, "bad-op")
+  | ["lay.blank", src, pos, w] =>
+    match Str.unhex src, pos.toNat?, Str.unhex w with
+    | some s, some p, some w => (st, toString (blankInsertOK st.d s p w))
+    | _, _, _ => (st, "bad-op")
+  | ["lay.comment", src, pos, w, body] =>
+    match Str.unhex src, pos.toNat?, Str.unhex w, Str.unhex body, st.d.comment.head? with
+    | some s, some p, some w, some b, some pair => (st, toString (commentInsertOK st.d s p w b pair))
+    | _, _, _, _, _ => (st, "bad-op")
+  | ["lay.cline", src, pos, ind, body] =>
+    match Str.unhex src, pos.toNat?, Str.unhex ind, Str.unhex body, st.d.comment.head? with
+    | some s, some p, some i, some b, some pair => (st, toString (commentLineInsertOK st.d s p i b pair))
+    | _, _, _, _, _ => (st, "bad-op")
   | ["filter", ts] =>
     match parseToks ts with
     | some ts => (st, showToks (postFilter st.d ts))
